@@ -116,7 +116,8 @@ class LRUCache(Cache):
         Iterates over keys of the cache. From the most recently used to the least recently used.
 
         """
-        return (d[0] for d in self.list)
+        # snapshot of keys, because the mapping views obtain values through __getitem__ which reorders the list
+        return iter([d[0] for d in self.list])
 
     def __setitem__(self, k: _KT, v: _VT):
         """
